@@ -6,6 +6,7 @@ import (
 	"os"
 	"os/exec"
 	"path/filepath"
+	"runtime"
 	"sort"
 	"strconv"
 	"strings"
@@ -198,7 +199,17 @@ func child(prop string) {
 		if dbg {
 			fmt.Fprintf(os.Stderr, "run %s max=%d callers=%d seed=%d\n", sc.Name, sc.Max, sc.Callers, sc.Seed)
 		}
+		// watchdog: a schedule that does not finish is a deadlock (of the pool or of this harness):
+		// dump all goroutines next to obs.json and fail the run instead of hanging until the driver's timeout
+		wd := time.AfterFunc(120*time.Second, func() {
+			buf := make([]byte, 1<<20)
+			n := runtime.Stack(buf, true)
+			_ = os.WriteFile(filepath.Join(c.Out, "hang-stacks.txt"), buf[:n], 0o644)
+			fmt.Fprintf(os.Stderr, "poolsim: schedule %q did not finish within 120 s; goroutine dump in hang-stacks.txt\n", sc.Name)
+			os.Exit(5)
+		})
 		r := Run(sc, T)
+		wd.Stop()
 		c.Obs.Evaluations++
 		coq, kinds := CoqCase(r)
 		js := map[string]interface{}{"scenario": r.Scenario, "total": r.Total, "free": r.Free, "reqs": r.Reqs, "probe": r.Probe, "hung": r.Hung}
@@ -258,6 +269,10 @@ func child(prop string) {
 	}
 	n := c.N(260, 4000)
 	for i := 0; i < n; i++ {
+		if len(c.Obs.Violations) >= 25 {
+			c.Note("stopped after 25 violations")
+			break
+		}
 		max := int64(c.Rng.Range(1, 3))
 		if c.Rng.Chance(1, 15) {
 			max = 0
